@@ -81,6 +81,8 @@ CASES = [
          d12="(c06_s + 4 <= c06_n && c06_buf[c06_s + 1] == '\\r' && c06_buf[c06_s + 2] == '\\n' && c06_buf[c06_s + 3] == 'x')"),
     dict(name='g_raise', cxx='seq< until< eol >, must< eof > >', eats='\n\r', can_raise=1, d12=D12_FIRST_CR, helpers=H_FIRST_CR, quick=1),
     dict(name='g_rep', cxx="rep< 2, sor< eol, one< 'a', '\\n' > > >", eats='\n\r', d12='c06_rep_hits_crlf()', helpers=H_REP, alphabet='ab\\n\\r'),
+    # positions observed INSIDE the re-match rules of rematch<> (they run on a sub-input): a raise in the second re-match rule
+    dict(name='g_rematch_raise', cxx="rematch< seq< any, any >, any, seq< any, must< one< 'x' > > > >", eats='\n\r', can_raise=1, alphabet='ax\\n\\r', quick=1, start0=1),
     # rewind_mode::optional: a local failure may leave the cursor moved; the position must still be the one of that cursor
     dict(name='g_optional', cxx="seq< sor< eol, any >, one< 'b' > >", eats='\n\r', d12=D12_AT_S, alphabet='ab\\n\\r', mode='optional', quick=1),
     # positions stored in parse-tree nodes (node::start/success as called by parse_tree::parse, then node.begin()/end())
@@ -137,6 +139,8 @@ def plan(ctx):
                           'optional': 1 if mode == 'optional' else 0, 'd12': c.get('d12', '0'), 'cmax': CMAX}
         if c.get('tree'):
             text = text.replace('#include "c06_harness.h"', '#define C06_TREE_MODE 1\n#include "c06_harness.h"')
+        if c.get('start0'):
+            text = text.replace('#include "c06_harness.h"', '#define C06_START0 1\n#include "c06_harness.h"')
         if c.get('helpers'):
             # predicates of the known-finding cases: need the globals of c06_harness.h, which includes this file in front of harness()
             ctx.write('c06_helpers_%s.h' % c['name'], c['helpers'] + '\n')
